@@ -17,6 +17,7 @@ import (
 	"verif/enum"
 	"verif/ref"
 	"verif/run"
+	"verif/shim/vos"
 	"verif/shim/vsync"
 	"verif/spec"
 	"verif/zx"
@@ -214,6 +215,8 @@ func runC17(ci interface{}, a *run.Acc) {
 	defer func() { zap.DefaultFileMergerBufferSize = oldBuf }()
 
 	switch c.Op {
+	case "handle":
+		runC17Handle(c, in, env, a, fail)
 	case "writeto-err", "writeto-short":
 		wt := env.segs[0].(io.WriterTo)
 		var full bytes.Buffer
@@ -356,8 +359,8 @@ func init() {
 	run.Register(&run.Def{
 		ID:          "C17",
 		Level:       "fault_enumeration",
-		Rule:        "deviation enumeration on the real write paths: for each of 13 inputs (builds: small, multi-field with doc values, synonyms, empty batch, composite field, varint-boundary values, a stored value larger than the write buffer; merges of 2-3 segments with and without deletions, synonyms, overlapping field lists, without survivors, byte-copy path with varint-boundary values): WriteTo(w) with w failing at EVERY byte offset 0..len-1, once as (short count, error) and once as an all-or-nothing writer returning (0, error) for the write that would cross the offset; Persist(path) and Merge(...,path) under RLIMIT_FSIZE = N for EVERY N in [0, size) (a real torn write at byte N followed by EFBIG; DefaultFileMergerBufferSize = 16 so that flush boundaries are dense); plus the fault-free run of each; the whole enumeration is repeated in the instrumented flavour under both orders in which the two sections can be laid out (in the plain flavour the order is whatever the Go runtime picks). Oracle: every fault yields a non-nil error and, for the path-based operations, no file at the path; the fault-free run yields identical Persist/WriteTo bytes, a footer with count/chunk mode/version 16/CRC-32 (independent decoder), re-opens to the reference content, and Merge's maps and size are right. Non-trivial = one (input, operation, fault offset) whose fault was actually triggered.",
-		Assumptions: []string{"Sync and Close failures of the output file cannot be provoked through the OS interface used here and are not injected in this tier", "the size of an output depends on the order in which sections are laid out (Go map order changes varint lengths of offsets): a run whose output is shorter than the fault offset is accepted iff it is a complete correct output", "output paths do not exist before the call"},
+		Rule:        "deviation enumeration on the real write paths: for each of 13 inputs (builds: small, multi-field with doc values, synonyms, empty batch, composite field, varint-boundary values, a stored value larger than the write buffer; merges of 2-3 segments with and without deletions, synonyms, overlapping field lists, without survivors, byte-copy path with varint-boundary values): WriteTo(w) with w failing at EVERY byte offset 0..len-1, once as (short count, error) and once as an all-or-nothing writer returning (0, error) for the write that would cross the offset; Persist(path) and Merge(...,path) under RLIMIT_FSIZE = N for EVERY N in [0, size) (a real torn write at byte N followed by EFBIG; DefaultFileMergerBufferSize = 16 so that flush boundaries are dense); plus the fault-free run of each; in the instrumented flavour (package os replaced by a shim in the write paths) also the failure of the n-th Write call on the file handle for EVERY n, of Sync and of Close; the whole enumeration is repeated in the instrumented flavour under both orders in which the two sections can be laid out (in the plain flavour the order is whatever the Go runtime picks). Oracle: every fault yields a non-nil error and, for the path-based operations, no file at the path; the fault-free run yields identical Persist/WriteTo bytes, a footer with count/chunk mode/version 16/CRC-32 (independent decoder), re-opens to the reference content, and Merge's maps and size are right. Non-trivial = one (input, operation, fault offset) whose fault was actually triggered.",
+		Assumptions: []string{"Sync / Close / n-th-Write-call failures of the file handle are injected through a build-time replacement of package os in the write paths (instrumented flavour)", "the size of an output depends on the order in which sections are laid out (Go map order changes varint lengths of offsets): a run whose output is shorter than the fault offset is accepted iff it is a complete correct output", "output paths do not exist before the call"},
 		Bounds:      map[string]string{"quick": "13 inputs, every byte offset of every output (2 legal WriteTo failure modes; Persist for the 7 build inputs; Merge for the 6 merge inputs), random section order + both section orders", "thorough": "same: the fault space is enumerated completely in both tiers"},
 		Flavours:    func(string) []string { return []string{"plain", "inst"} },
 		New:         func() interface{} { return &FaultCase{} },
@@ -368,21 +371,110 @@ func init() {
 				perms = 2 // both orders of the two sections
 			}
 			for perm := 0; perm < perms; perm++ {
+				nb := len(faultBuildInputs())
 				for i := range faultInputs() {
 					for _, op := range []string{"writeto-err", "writeto-short", "persist", "merge"} {
-						if i >= 4 && op != "merge" {
+						if i >= nb && op != "merge" {
 							continue
 						}
-						if i < 4 && op == "merge" {
+						if i < nb && op == "merge" {
 							continue
 						}
 						for s := 0; s < of; s++ {
 							emit(FaultCase{Input: i, Op: op, Shard: s, Of: of, Perm: perm})
 						}
 					}
+					if run.Flavour == "inst" {
+						emit(FaultCase{Input: i, Op: "handle", Perm: perm})
+					}
 				}
 			}
 		},
 		Run: runC17,
 	})
+}
+
+// runC17Handle: faults of the file handle itself (instrumented flavour: package os is
+// replaced by verif/shim/vos in the write paths): the n-th Write call for every n, Sync,
+// Close. Each must give an error and leave no file.
+func runC17Handle(c FaultCase, in faultInput, env *faultEnv, a *run.Acc, fail func(kind, msg string)) {
+	var op func(path string) error
+	if in.drops == nil {
+		op = func(path string) error { return env.segs[0].(segment.UnpersistedSegment).Persist(path) }
+	} else {
+		op = func(path string) (err error) {
+			_, _, err = zx.Plugin.Merge(env.segs, env.bms, path, nil, nil)
+			return err
+		}
+	}
+	vos.SetPlan(vos.Plan{})
+	path := zx.TempPath("c17h")
+	if err := op(path); err != nil {
+		fail("nofault", "fault-free run failed: "+err.Error())
+		return
+	}
+	zx.Remove(path)
+	log := vos.Log()
+	nw := vos.Writes()
+	opened := false
+	for _, l := range log {
+		opened = opened || l == "open"
+	}
+	if !opened {
+		a.Note("the write paths do not open their file through the os shim in this build: handle faults not injected")
+		return
+	}
+	type fault struct {
+		name string
+		plan vos.Plan
+	}
+	faults := []fault{{"Sync fails", vos.Plan{FailSync: true}}, {"Close fails", vos.Plan{FailClose: true}}}
+	for k := 1; k <= nw; k++ {
+		faults = append(faults, fault{fmt.Sprintf("Write call #%d of %d fails", k, nw), vos.Plan{FailWrite: k}})
+	}
+	for _, f := range faults {
+		p := zx.TempPath("c17h")
+		vos.SetPlan(f.plan)
+		err := op(p)
+		calls := vos.Log()
+		vos.SetPlan(vos.Plan{})
+		a.Eval(1)
+		a.NonTrivial(fmt.Sprintf("%d/handle/%s/%d", c.Input, f.name, c.Perm))
+		st, statErr := os.Stat(p)
+		if err == nil {
+			// a shorter layout may need fewer Write calls than the recorded run
+			if f.plan.FailWrite > 0 && countCalls(calls, "write") < f.plan.FailWrite {
+				if m := checkComplete(p, env.exp, 1026); m == "" {
+					zx.Remove(p)
+					a.Outcome("fault-not-reached(shorter layout)")
+					continue
+				}
+			}
+			msg := fmt.Sprintf("%s, but the operation returned nil", f.name)
+			if statErr == nil {
+				msg += fmt.Sprintf("; a file of %d bytes is left", st.Size())
+			}
+			zx.Remove(p)
+			fail("silent-failure", msg)
+			a.Outcome("silent")
+			return
+		}
+		if statErr == nil {
+			zx.Remove(p)
+			fail("file-left", fmt.Sprintf("%s and the operation returned %q, but a file of %d bytes is left at the path", f.name, err, st.Size()))
+			a.Outcome("file-left")
+			return
+		}
+		a.Outcome("error-and-no-file")
+	}
+}
+
+func countCalls(log []string, what string) int {
+	n := 0
+	for _, l := range log {
+		if l == what {
+			n++
+		}
+	}
+	return n
 }
